@@ -464,7 +464,7 @@ fn workloads(property: &str, quick: bool) -> Vec<Workload> {
         ],
         tables: vec![("t", vec![1, 2, 3], vec![])],
     });
-    if !quick || property == "C02" {
+    {
         // W3: secondary index created between inserts
         w.push(Workload {
             name: "w3-secondary-index",
@@ -478,7 +478,7 @@ fn workloads(property: &str, quick: bool) -> Vec<Workload> {
             tables: vec![("t", vec![1, 2, 3], vec![("a", vec![10, 12, 20, 30])])],
         });
     }
-    if !quick {
+    {
         // W5: DDL mixed with DML
         w.push(Workload {
             name: "w5-ddl",
@@ -493,6 +493,8 @@ fn workloads(property: &str, quick: bool) -> Vec<Workload> {
             ],
             tables: vec![("t", vec![1], vec![]), ("u", vec![1], vec![])],
         });
+    }
+    if !quick {
         // W6: inserts that split the root leaf (18 rows x ~900 bytes > 16 KiB)
         let mut units = Vec::new();
         for k in 1..=20i64 {
@@ -501,6 +503,8 @@ fn workloads(property: &str, quick: bool) -> Vec<Workload> {
         let mut s = pragmas();
         s.push("CREATE TABLE t (id INT PRIMARY KEY, a TEXT)".into());
         w.push(Workload { name: "w6-leaf-split", setup: s, units, tables: vec![("t", (1..=20).collect(), vec![])] });
+    }
+    {
         // W7: TOAST rows
         let mut s = pragmas();
         s.push("CREATE TABLE t (id INT PRIMARY KEY, a TEXT)".into());
@@ -804,7 +808,8 @@ struct Verdicts<'a> {
 impl<'a> Verdicts<'a> {
     fn fire(&mut self, prop: &str, layer: &str, expected: &str, observed: &str) {
         let inflight = self.ev.in_flight.map(|i| self.wl.units[i].kind).unwrap_or("none");
-        let sig = format!("{prop}/{}/{layer}/in-flight:{inflight}", self.st.model);
+        let last = if self.ev.acked > 0 { self.wl.units[self.ev.acked - 1].kind } else { "setup" };
+        let sig = format!("{prop}/{}/{layer}/in-flight:{inflight}/last-acked:{last}", self.st.model);
         let (wl, ev, model, variant) = (self.wl.name, self.st.event, self.st.model, self.st.variant.clone());
         let label = self.ev.label.clone();
         self.rep.violation(prop, layer, &sig, || json!({"workload": wl, "event": ev, "event_label": label, "model": model, "variant": variant}), expected, observed);
